@@ -334,6 +334,11 @@ def check(ctx):
     prog.mod('types'); prog.mod('types.pxd'); prog.mod('simulator'); prog.mod('simulator.pxd'); prog.mod('random')
     for key in ('DelaySSASimulator', 'DelayVolumeSSASimulator'):
         check_loop(ctx, key)
+    from .c05 import RACE_WHAT
+    for key in ('DelaySSASimulator', 'DelayVolumeSSASimulator'):
+        sl_ = simloop.SimLoop(ctx, key)
+        pr_, n_ = simloop.event_race(sl_)
+        ctx.ob('R10.1-event-race', key, not pr_, sl_.where, RACE_WHAT % n_, '; '.join(pr_[:2]))
     check_nodelay(ctx)
     check_delay_classes(ctx)
     check_samplers(ctx)
